@@ -306,6 +306,44 @@ func c13Run(s *c13Scn, variant string) verdict {
 		}
 	}
 
+	// one more command on the same driver, without any operation option: whatever the operation before it did (stopped at a
+	// failed command, used a list of its own, ran in configuration mode), this one is sent, returns its own output and is
+	// marked by the driver's list alone
+	sentBefore := s.NSent
+
+	if v.OK && len(cmds) > 0 && len(results) > 0 && s.NSent > 0 && s.idx%2 == 1 {
+		var r2 *response.Response
+
+		var e2 error
+
+		fin2, pan2 := withWatchdog(10*time.Second, func() {
+			if nd != nil {
+				r2, e2 = nd.SendCommand(cmds[0])
+			} else {
+				r2, e2 = gd.SendCommand(cmds[0])
+			}
+		})
+
+		wantFailed := false
+
+		for _, f := range conc(s.Drv) {
+			if f != "" && strings.Contains(results[0], f) {
+				wantFailed = true
+			}
+		}
+
+		switch {
+		case !fin2 || pan2 != nil || e2 != nil:
+			fail(&v, "C13:"+variant+":later-command:error", "a command after the operation: returned=%v panic=%v err=%v", fin2, pan2, e2)
+		case r2.Result != results[0]:
+			fail(&v, "C13:"+variant+":later-command:result", "a command after the operation returned %q, as part of the operation the same command returned %q", r2.Result, results[0])
+		case (r2.Failed != nil) != wantFailed:
+			fail(&v, "C13:"+variant+":later-command:member-failed-flag", "a command after the operation (no operation options; driver list %q, earlier operation list %q): output %q, Failed=%v", s.Drv, s.Op, r2.Result, r2.Failed != nil)
+		}
+
+		sentBefore = -1
+	}
+
 	_, _ = withWatchdog(5*time.Second, func() {
 		if nd != nil {
 			_ = nd.Close()
@@ -323,6 +361,10 @@ func c13Run(s *c13Scn, variant string) verdict {
 		}
 	}
 	pipe.Unlock()
+
+	if sentBefore == -1 && len(lines) > 0 && lines[len(lines)-1] == cmds[0] {
+		lines = lines[:len(lines)-1] // the later command
+	}
 
 	if v.OK && strings.Join(lines, "\x00") != strings.Join(cmds[:s.NSent], "\x00") {
 		sig := "C13:" + variant + ":device-received"
